@@ -18,6 +18,11 @@ Driver for C16: replays the harness' operations on the density-grid model.
   ytrans | <assign col 0>* | …                                  -> allocation dump
   snap <lx> <ly> | <bins…> | <cbx…> | <cby…>  -> `snap ok` iff the snapshot satisfies the allocation invariant
                                                for the same demands (then the model continues from it)
+  updemand <d0> <d1> …                      -> `updemand ok` (demands replaced) or `updemand throw:runtime_error`
+                                               (state untouched) + allocation dump + view dump + demands
+                                               (`updateCellDemand(circuit)`; the harness computes the circuit's demands)
+  setdemand <d0> <d1> …                     -> `setdemand ok` + allocation dump + view dump + demands
+                                               (`updateCellDemand(std::vector<int>)`, no validation)
 
 With the op-log hook H4 the public passes are replayed call by call instead of by snapshot:
   params <nbSteps> <lineSize> <lineOverlap> <diagSize> <diagOverlap> <squareSize> <squareOverlap> <unidim>
@@ -132,6 +137,15 @@ def applyCall (hs : HState) (c : Call) (secs : List (List String)) : HState × L
     let hs' := hs.apply (c.toOp { assigns := secs.map nats })
     (hs', dumpAlloc hs')
 
+/-- `HierarchicalDensityPlacement::updateCellDemand(const Circuit &)` on the demand vector `nd` computed from the
+circuit: refused (exception, nothing written) when some cell's demand would change to or from zero -/
+def updateDemandChecked (hs : HState) (nd : List Int) : HState × Bool :=
+  if (List.range hs.nbCells).all (fun c => (hs.demand.getD c 0 == 0) == (nd.getD c 0 == 0)) then
+    ({ hs with demand := nd }, true)
+  else (hs, false)
+
+def dumpDemands (hs : HState) : List String := [line "demands" (showInts hs.demand)]
+
 def step (s : St) (ws : List String) : St × List String :=
   match circuitLine s.circ ws with
   | some c => ({ s with circ := c }, [])
@@ -175,6 +189,12 @@ def step (s : St) (ws : List String) : St × List String :=
   | "ytrans" :: rest =>
     let hs := s.hs.improveYTransportSk ((sections rest).drop 1 |>.map nats)
     ({ s with hs := hs }, dumpAlloc hs)
+  | "updemand" :: ds =>
+    let (hs, ok) := updateDemandChecked s.hs (ints ds)
+    ({ s with hs := hs }, [if ok then "updemand ok" else "updemand throw:runtime_error"] ++ dumpAlloc hs ++ dumpView hs ++ dumpDemands hs)
+  | "setdemand" :: ds =>
+    let hs := { s.hs with demand := ints ds }
+    ({ s with hs := hs }, ["setdemand ok"] ++ dumpAlloc hs ++ dumpView hs ++ dumpDemands hs)
   | ["params", n, ls, lo, ds, dO, ss, so, u] =>
     let p : LegParams := ⟨(int! n).toNat, (int! ls).toNat, (int! lo).toNat, (int! ds).toNat, (int! dO).toNat,
       (int! ss).toNat, (int! so).toNat, (int! u) != 0⟩
